@@ -8,6 +8,9 @@
 (b) sub-operation level, E3: real threads, LINE events on every function of config.py, all pairs of small
     programs, every schedule up to a preemption bound; each thread's reads must equal the reference for its
     own program (thread-locality), and afterwards a thread re-using either identifier reads defaults.
+(c) consumers: the runner analyses lazily; for every key it reads, every pair (context of construction, context of
+    analysis) - same thread after the scope ended normally / by exception, or a scope still open in another thread -
+    must give what constructing and analysing in the analysis context gives.
 """
 from __future__ import annotations
 
@@ -450,11 +453,127 @@ def sched_level(rep: Report, tier: str):
     }
 
 
+
+# ================================================================================================
+# (c) consumers of the configuration: the runner is lazy, so "visible only until its scope ends" must hold for the pair
+#     (where the runner object was constructed, where its analysis actually happens)
+# ================================================================================================
+CONSUMERS = [
+    # key, override value, another value, dialect, script, provider metadata
+    ("DEFAULT_SCHEMA", "ods", "dw", "ansi", "INSERT INTO t SELECT a FROM s JOIN x.u ON 1 = 1", None),
+    ("TSQL_NO_SEMICOLON", True, False, "tsql", "INSERT INTO t1 SELECT a FROM s1\nINSERT INTO t2 SELECT b FROM s2", None),
+    ("LATERAL_COLUMN_ALIAS_REFERENCE", True, False, "ansi", "INSERT INTO m.t SELECT a AS b, b + 1 AS c FROM m.s", {"m.s": ["a"]}),
+]
+
+
+def _consumer_obs(r):
+    import warnings
+
+    with warnings.catch_warnings():
+        warnings.simplefilter("ignore")
+        try:
+            return {
+                "n": len(r.statements()),
+                "src": sorted(str(t) for t in r.source_tables),
+                "tgt": sorted(str(t) for t in r.target_tables),
+                "cols": sorted([str(p[0]), str(p[-1])] for p in r.get_column_lineage()),
+            }
+        except Exception as e:  # noqa
+            return {"exception": type(e).__name__}
+
+
+def _consumer_case(case):
+    """construct the runner in context A, run its analysis in context B; expected: construct and analyse in B"""
+    ci, ctx_a, ctx_b, mode = case
+    key, v1, v2, dialect, sql, md = CONSUMERS[ci]
+    import warnings
+
+    from sqllineage.config import SQLLineageConfig
+    from sqllineage.core.metadata.dummy import DummyMetaDataProvider
+    from sqllineage.runner import LineageRunner
+
+    vals = {"none": None, "v1": v1, "v2": v2}
+
+    class Boom(Exception):
+        pass
+
+    def mk():
+        with warnings.catch_warnings():
+            warnings.simplefilter("ignore")
+            return LineageRunner(sql, dialect=dialect, **({"metadata_provider": DummyMetaDataProvider({k: list(v) for k, v in md.items()})} if md else {}))
+
+    def in_ctx(ctx, fn):
+        if vals[ctx] is None:
+            return fn()
+        with SQLLineageConfig(**{key: vals[ctx]}):
+            return fn()
+
+    expected = in_ctx(ctx_b, lambda: _consumer_obs(mk()))
+    if mode == "same":  # A's scope has ended normally before B begins
+        r = in_ctx(ctx_a, mk)
+        got = in_ctx(ctx_b, lambda: _consumer_obs(r))
+    elif mode == "exc":  # A's scope is left by an exception
+        box = []
+
+        def body():
+            box.append(mk())
+            raise Boom()
+
+        try:
+            in_ctx(ctx_a, body)
+        except Boom:
+            pass
+        got = in_ctx(ctx_b, lambda: _consumer_obs(box[0]))
+    elif mode == "nested":  # analysed in B opened while ... A already closed, constructed before any scope but touched (str) inside A
+        r = mk()
+        in_ctx(ctx_a, lambda: repr(r._dialect))
+        got = in_ctx(ctx_b, lambda: _consumer_obs(r))
+    else:  # "thread": another thread constructs inside A and keeps A open while this thread analyses inside B
+        box, made, done = [], threading.Event(), threading.Event()
+
+        def other():
+            def body():
+                box.append(mk())
+                made.set()
+                done.wait(30)
+
+            in_ctx(ctx_a, body)
+
+        t = threading.Thread(target=other)
+        t.start()
+        made.wait(30)
+        try:
+            got = in_ctx(ctx_b, lambda: _consumer_obs(box[0]))
+        finally:
+            done.set()
+            t.join(30)
+    return {"case": list(case), "expected": expected, "got": got, "ok": expected == got}
+
+
+def consumer_level(rep: Report):
+    t0 = time.time()
+    cases = [(ci, a, b, mode) for ci in range(len(CONSUMERS)) for a in ("none", "v1", "v2") for b in ("none", "v1", "v2") for mode in ("same", "exc", "nested", "thread")]
+    res = pmap(_consumer_case, cases, chunk=4)
+    outcomes = {}
+    for r in res:
+        outcomes.setdefault(r["case"][0], set()).add(json.dumps(r["expected"], sort_keys=True))
+        if not r["ok"]:
+            ci, a, b, mode = r["case"]
+            rep.violation("consumer-sees-configuration-of-another-scope",
+                          {"part": "c", "key": CONSUMERS[ci][0], "constructed_in": a, "analysed_in": b, "mode": mode, "sql": CONSUMERS[ci][4], "dialect": CONSUMERS[ci][3]},
+                          {"expected": r["expected"], "got": r["got"]})
+    for ci, o in outcomes.items():
+        if len(o) < 2:
+            raise HarnessError(f"vacuous consumer case: {CONSUMERS[ci][0]} does not change the observation of its script")
+    return {"cases": len(cases), "keys": [c[0] for c in CONSUMERS], "distinct_expected_outcomes_per_key": {CONSUMERS[ci][0]: len(o) for ci, o in outcomes.items()},
+            "wall_s": round(time.time() - t0, 2)}
+
 # ================================================================================================
 def run(tier: str, opts: dict) -> int:
     rep = Report("C15", tier, "model_checking")
     a = op_level(rep, max_depth=int(opts.get("depth", 10 if tier == "quick" else 14)), max_env_flips=1 if tier == "quick" else 2)
     b = sched_level(rep, tier) if opts.get("part", "ab") != "a" else {}
+    c = consumer_level(rep)
     rep.coverage.update(
         states=a["states"],
         transitions=a["transitions"],
@@ -467,10 +586,14 @@ def run(tier: str, opts: dict) -> int:
         "assignment, environment flip; every transition calls the real config object through the get_ident seam; "
         "all keys read from all threads in every state; non-trivial state = >=2 threads inside a scope or a rejected open in its history. "
         "(b) every pair of thread programs of <=2 blocks over 9 blocks, every schedule up to the preemption bound, LINE "
-        "events on every function of sqllineage/config.py as scheduling points.",
+        "events on every function of sqllineage/config.py as scheduling points. (c) consumers: for each key the runner reads (DEFAULT_SCHEMA, "
+        "TSQL_NO_SEMICOLON, LATERAL_COLUMN_ALIAS_REFERENCE) every pair (context in which the lazy runner object is constructed, context in which it is "
+        "analysed) over {no scope, scope K=v, scope K=v'} x {scope ended normally, ended by exception, object only touched in the scope, scope still open in another thread}: "
+        "the analysis must see exactly the configuration of the context it runs in.",
         exhaustive=bool(a["fixpoint"] and b.get("all_complete", True)),
         op_level=a,
         sched_level=b,
+        consumer_level=c,
     )
     if not a["fixpoint"]:
         rep.cap(f"operation-level BFS stopped by depth cap at depth {a['max_depth_reached']} (no fixpoint)")
@@ -492,6 +615,15 @@ def replay(body: dict, opts: dict) -> int:
         print("history:", hist)
         print("problems:", problems)
         if problems:
+            print(f"VIOLATION property=C15 replay={opts.get('path', '<replayed>')}")
+            return 1
+        print("OK on replay")
+        return 0
+    if c.get("part") == "c":
+        ci = [k[0] for k in CONSUMERS].index(c["key"])
+        r = _consumer_case((ci, c["constructed_in"], c["analysed_in"], c["mode"]))
+        print(json.dumps(r, indent=1))
+        if not r["ok"]:
             print(f"VIOLATION property=C15 replay={opts.get('path', '<replayed>')}")
             return 1
         print("OK on replay")
